@@ -369,6 +369,7 @@ fn start_hang_watchdog(id: String, tier: Tier, seed: u64) {
 fn start_watchdog(on_hang: Box<dyn Fn(Value, f64) + Send>) {
     use std::sync::atomic::Ordering::Relaxed;
     let t0 = Instant::now();
+    let limit_ms = std::env::var("HV_HANG_LIMIT_S").ok().and_then(|v| v.parse::<u64>().ok()).unwrap_or(HANG_LIMIT_S) * 1000;
     std::thread::Builder::new()
         .name("hang-watchdog".into())
         .spawn(move || loop {
@@ -379,9 +380,12 @@ fn start_watchdog(on_hang: Box<dyn Fn(Value, f64) + Send>) {
                 continue;
             }
             let slots: Vec<&'static Slot> = SLOTS.lock().unwrap().clone();
+            if std::env::var("HV_HANG_DEBUG").is_ok() {
+                eprintln!("watchdog: now={} slots={} busy={:?}", now, slots.len(), slots.iter().map(|s| s.since_ms.load(Relaxed)).filter(|x| *x != 0).collect::<Vec<_>>());
+            }
             for s in slots {
                 let since = s.since_ms.load(Relaxed);
-                if since != 0 && now.saturating_sub(since) > HANG_LIMIT_S * 1000 {
+                if since != 0 && now.saturating_sub(since) > limit_ms {
                     let n = s.len.load(Relaxed).min(160);
                     let what: Vec<u8> = unsafe { std::slice::from_raw_parts(s.buf.get() as *const u8, n).to_vec() };
                     let case = json!({"input_head": show(&what), "seconds_without_return": (now - since) / 1000});
